@@ -375,11 +375,16 @@ def gen_kiki_ann(repo):
     gotos = [[None if g == 'None' else int(g.split(' ')[1]) for g in row] for row in rs['gotos']]
     states, ref = lrhint.annotate_table(rules, start, terminals, nt_names, rs['start'], actions, gotos)
     tidx = {t: i for i, t in enumerate(terminals)}
+    cert = lrhint.termination_certificate(len(terminals), len(nt_names), actions, gotos, [(l, len(p)) for l, p in rs['shapes']])
+    K, phi = cert if cert is not None else (0, [])
     L = ['(* GENERATED on every run by lib/translate.py: untrusted hints for LR/Validate.v. *)',
          'From Coq Require Import List.', 'From Kiki Require Import Data LR.Driver LR.Grammar LR.Validate.',
          'Import ListNotations. Open Scope nat_scope.', '',
          'Definition kiki_ann : list (list item) :=\n  %s.' % lrhint.gallina_ann(states, tidx),
-         'Definition kiki_ft : first_table := %s.' % lrhint.gallina_ft(ref, tidx)]
+         'Definition kiki_ft : first_table := %s.' % lrhint.gallina_ft(ref, tidx),
+         '(* termination certificate (LR/Term.v): potential per state and the constant K *)',
+         'Definition kiki_K : nat := %d.' % K,
+         'Definition kiki_phi : list nat := [%s].' % '; '.join(map(str, phi))]
     return '\n'.join(L) + '\n'
 
 
